@@ -628,7 +628,10 @@ PROPS["C08"] = {
     "obligations": [{"name": "Shape_Client", "facts": "module:Client"}, {"name": "Shape_Keys", "facts": "module:Keys"}] + _PARSER_OBL + _APPLIER_OBL,
     "streams": [{"gen": "C08", "quick": 1500, "thorough": 60000}],
     "property_check": _c08_property,
-    "label": _c08_label,
+    "compare": lambda kind, case, impl, model: (lambda a, b: None if a == b else __import__("check").first_diff(a, b))(
+        __import__("check").canon(impl), __import__("check").canon(_drop_keys(model, {"premises"}))),
+    "label": lambda r: _c08_label(r) + ("/theorem-premises-hold" if isinstance(r["model"], dict) and any(s.get("premises") is True for s in r["model"].get("steps", [])) else "") +
+                       ("/theorem-premises-FAIL" if isinstance(r["model"], dict) and any(s.get("premises") is False for s in r["model"].get("steps", [])) else ""),
     "nontrivial": lambda r: isinstance(r["model"], dict) and all(o.get("apply") == "ok" for s, o in zip(r["case"]["steps"], r["model"].get("steps", [])) if s["expect"]["valid"]),
     "shape": lambda r: [[s["via"], s["op"], s["info"]] for s in r["case"]["steps"]],
     "rule": "lifecycles create -> update* -> recover -> update* -> deactivate (each optional part drawn independently), every request produced by the real builders: half of the cases "
